@@ -92,9 +92,38 @@ func init() {
 			go func() {
 				defer wg.Done()
 				for lc := range ch {
+					func() {
+						defer func() {
+							if r := recover(); r != nil {
+								res.violation(Finding{Property: "C13", Aspect: "panic", What: fmt.Sprintf("ordering S[%d] against S[%d] panicked: the comparison is not defined for this pair: %v", lc.A, lc.B, r),
+									Case: map[string]interface{}{"a": lc.A, "b": lc.B, "sig_a": S[lc.A-1], "sig_b": S[lc.B-1]}})
+							}
+						}()
+						orderPair(res, lc, S, &omu, obs)
+					}()
+				}
+			}()
+		}
+		for _, lc := range cases {
+			ch <- lc
+		}
+		close(ch)
+		wg.Wait()
+		if res.saturated("C13") || res.ViolCount["C13"] > 0 && len(obs) == 0 {
+			return res.write(*c.out)
+		}
+		return orderRest(res, c, S, less, obs)
+	})
+}
+
+func orderPair(res *Result, lc lessCase, S []absSig, omu *sync.Mutex, obs map[[2]int]bool) {
+	{
+		{
+			{
+				{
 					if lc.A == lc.B {
 						res.eval(fmt.Sprint(lc.A, lc.B), false, nil)
-						continue
+						return
 					}
 					snap := &stack.Snapshot{Goroutines: []*stack.Goroutine{
 						{Signature: mkOrderSig(&firstSig), ID: 1, First: true},
@@ -120,13 +149,13 @@ func init() {
 					}
 					res.eval(fmt.Sprint(lc.A, lc.B), true, sample)
 				}
-			}()
+			}
 		}
-		for _, lc := range cases {
-			ch <- lc
-		}
-		close(ch)
-		wg.Wait()
+	}
+}
+
+func orderRest(res *Result, c *common, S []absSig, less map[[2]int]bool, obs map[[2]int]bool) error {
+	{
 		// The observed relation must be a strict weak order that honours the relevance contract.
 		// If it equals the specification's relation this follows from TLC's result on MC_Less; if
 		// it differs, it is judged on its own: a different but valid order is model drift, not a
@@ -233,7 +262,11 @@ func init() {
 			for j, x := range idx {
 				snap.Goroutines = append(snap.Goroutines, &stack.Goroutine{Signature: mkOrderSig(&S[x]), ID: 2 + j})
 			}
-			a := snap.Aggregate(stack.ExactFlags)
+			a := safeAggregate(snap)
+			if a == nil {
+				res.violation(Finding{Property: "C13", Aspect: "panic", What: fmt.Sprintf("aggregating signatures %v of S panicked in the ordering", idx)})
+				break
+			}
 			if len(a.Buckets) != k+1 {
 				continue
 			}
@@ -250,5 +283,14 @@ func init() {
 			res.eval(fmt.Sprint("rand", idx), true, nil)
 		}
 		return res.write(*c.out)
-	})
+	}
+}
+
+func safeAggregate(s *stack.Snapshot) (a *stack.Aggregated) {
+	defer func() {
+		if recover() != nil {
+			a = nil
+		}
+	}()
+	return s.Aggregate(stack.ExactFlags)
 }
